@@ -837,10 +837,27 @@ func (x *runCtx) execOp(tc *taskCtx, opi int, op Op) {
 		} else {
 			tc.probes.ParseFail++
 		}
-		if x.prop == "C14" || x.prop == "C09" {
-			if (out.parsed == nil) == (out.err == nil) && !out.panicked {
-				// both nil or both non-nil: not this property's business (C01), ignore
-				_ = 0
+		if x.armed("C09") && out.parsed != nil && out.err == nil && !out.panicked {
+			// Order, duplicates, missing metrics and separators are C01's business.
+			// That a metric:value couple which is not of this version went
+			// through (ParseVector stores by way of Set) is this property's.
+			sp := specs[a.Ver()]
+			parts := strings.Split(op.S, "/")
+			if sp.Header != "" && len(parts) > 0 && parts[0] == sp.Header {
+				parts = parts[1:]
+			} else if sp.Header != "" && strings.HasPrefix(op.S, sp.Header+"/") {
+				parts = strings.Split(op.S[len(sp.Header)+1:], "/")
+			}
+			for _, part := range parts {
+				k := strings.IndexByte(part, ':')
+				if k < 0 {
+					continue
+				}
+				ms := sp.metric(part[:k])
+				if ms == nil || !ms.has(part[k+1:]) {
+					x.violate(tc, "accepted-illegal", opi, "v%d ParseVector(%q) succeeded although %q is not a metric/value of this version", a.Ver(), trunc(op.S), trunc(part))
+					break
+				}
 			}
 		}
 		if out.parsed != nil && out.err == nil && d != nil {
